@@ -1426,6 +1426,9 @@ def compile_pattern(compiler, pattern):
     elif isinstance(value, Dict):
         kvs, rest = value
         keys, values = zip(*kvs) if kvs else ([], [])
+        if rest and mangle(rest) == "_":
+            # As in Python, where `**_` is a syntax error.
+            compiler._syntax_error(rest, "`#** _` isn't allowed in a mapping pattern")
         node = asty.MatchMapping(
             value,
             keys=[compiler.compile(key).expr for key in keys],
